@@ -39,7 +39,8 @@ Fmt2 == {v1 \o l \o v2 : v1 \in VerbsLite, l \in {<<>>, <<"-">>}, v2 \in VerbsLi
 FmtBad == {<<"%">>, <<"a", "%">>, <<"%", "!">>, <<"%", "3">>, <<"%", ".", "s">>, <<"%", "[", "]", "s">>, <<"%", "[", "a", "]", "s">>, <<"%", "s", "%">>, <<"%", "0", "3", "d">>, <<"%", "-", "-", "s">>,
            <<"a", "b">>, <<>>, <<"%", "%">>, <<"%", "1", "0", "s">>, <<"%", "3", ".", "1", "[", "2", "]", "s">>}
 FmtArgs == {S(<<"a", "b">>), S(<<"x", "b", "acute", "d">>), S(<<"wave", "tone", "x">>), NumV(8), NumV(-12), NumV(6), NumV(0), NumV(400), BoolV(TRUE), Null(TStr), S(<<>>),
-            SeqV(TList(TNum), <<NumV(4), NumV(2)>>), S(<<"a", "\"", "LF">>)}
+            SeqV(TList(TNum), <<NumV(4), NumV(2)>>), S(<<"a", "\"", "LF">>),
+            K(TNum, [lm |-> "f64intp"]), K(TNum, [lm |-> "u64max"]), K(TNum, [lm |-> "almost1"]), K(TNum, [lm |-> "malmost3"])}
 ArgLs == {<<>>} \cup {<<x>> : x \in FmtArgs} \cup {<<x, y>> : x \in TakeN(FmtArgs, 9), y \in {S(<<"a", "b">>), NumV(8), NumV(-12)}}
 Pick(n, S0) == IF Cardinality(S0) <= n THEN S0 ELSE RandomSubset(n, S0)
 Formats == Pick(IF Thorough THEN 5000 ELSE 350, Fmt1) \cup Pick(IF Thorough THEN 2500 ELSE 150, Fmt2) \cup FmtBad
@@ -64,7 +65,7 @@ CsvTexts == {h : h \in CsvHdrs} \cup {h \o nl : h \in CsvHdrs, nl \in CsvNL}
 \* ---- JSON-representable values
 JT == {TNum, TStr, TBool, TList(TNum), TList(TStr), TMap(TNum), TMap(TStr), TTup(<<TNum, TStr>>), TTup(<<>>), TObj([a |-> TNum, b |-> TStr]), TObj(<<>>),
        TList(TList(TNum)), TMap(TList(TStr)), TObj([a |-> TList(TNum), b |-> TStr]), TTup(<<TList(TStr), TNum>>), TList(TObj([a |-> TNum]))}
-JVals == UNION {AllVals(t) : t \in JT} \cup {S(<<"a", "\"", "b">>), S(<<"\\", "LF", "TAB">>), S(<<"<", "b", "acute">>), NumV(-10), NumV(3), NumV(400), NumV(-1)}
+JVals == {K(TNum, [lm |-> x]) : x \in DOMAIN LmText} \cup {SeqV(TList(TNum), <<K(TNum, [lm |-> "f64intp"]), NumV(4)>>)} \cup UNION {AllVals(t) : t \in JT} \cup {S(<<"a", "\"", "b">>), S(<<"\\", "LF", "TAB">>), S(<<"<", "b", "acute">>), NumV(-10), NumV(3), NumV(400), NumV(-1)}
 JFin == {v \in JVals : JTextable(v)}
 
 TSPool == {<<"2", "0", "2", "0", "-", "0", "2", "-", "2", "9", "T", "2", "3", ":", "5", "9", ":", "5", "9", "Z">>, <<"2", "0", "2", "1", "-", "0", "3", "-", "0", "9", "T", "0", "0", ":", "0", "7", ":", "3", "0", "Z">>, <<"1", "9", "9", "9", "-", "1", "2", "-", "3", "1", "T", "1", "2", ":", "0", "0", ":", "0", "0", "+", "0", "5", ":", "3", "0">>, <<"2", "0", "0", "0", "-", "0", "1", "-", "0", "1", "T", "1", "3", ":", "0", "5", ":", "0", "9", "-", "0", "8", ":", "0", "0">>, <<"2", "0", "2", "1", "-", "0", "2", "-", "2", "9", "T", "0", "0", ":", "0", "0", ":", "0", "0", "Z">>, <<"2", "0", "2", "0", "-", "1", "3", "-", "0", "1", "T", "0", "0", ":", "0", "0", ":", "0", "0", "Z">>, <<"2", "0", "2", "0", "-", "0", "1", "-", "0", "1", "T", "2", "4", ":", "0", "0", ":", "0", "0", "Z">>, <<"2", "0", "2", "0", "-", "0", "1", "-", "0", "1", "T", "0", "0", ":", "0", "0", ":", "0", "0", "+", "2", "4", ":", "0", "0">>, <<"2", "0", "2", "0", "-", "0", "1", "-", "0", "1", " ", "0", "0", ":", "0", "0", ":", "0", "0", "Z">>, <<"2", "0", "2", "0", "-", "0", "1", "-", "0", "1", "T", "0", "0", ":", "0", "0", ":", "0", "0">>, <<>>, <<"2", "0", "2", "0", "-", "0", "1", "-", "0", "1", "T", "0", "0", ":", "0", "0", ":", "0", "0", "+", "0", "0", ":", "0", "0">>, <<"0", "0", "0", "1", "-", "0", "1", "-", "0", "1", "T", "0", "0", ":", "0", "0", ":", "0", "0", "Z">>, <<"9", "9", "9", "9", "-", "1", "2", "-", "3", "1", "T", "2", "3", ":", "5", "9", ":", "5", "9", "Z">>, <<"2", "0", "2", "3", "-", "1", "0", "-", "0", "1", "T", "1", "1", ":", "5", "9", ":", "5", "9", "-", "0", "0", ":", "3", "0">>, <<"2", "0", "2", "4", "-", "1", "2", "-", "3", "1", "T", "2", "3", ":", "0", "0", ":", "0", "0", "+", "0", "1", ":", "0", "0">>, <<"2", "0", "1", "9", "-", "0", "6", "-", "1", "5", "T", "1", "2", ":", "3", "0", ":", "4", "5", "Z">>, <<"2", "0", "2", "0", "-", "0", "1", "-", "0", "1", "T", "0", "0", ":", "6", "0", ":", "0", "0", "Z">>, <<"2", "0", "2", "0", "-", "1", "-", "0", "1", "T", "0", "0", ":", "0", "0", ":", "0", "0", "Z">>, <<"2", "0", "2", "0", "-", "0", "1", "-", "0", "1", "T", "0", "0", ":", "0", "0", ":", "0", "0", "-", "0", "8", "0", "0">>}
